@@ -149,17 +149,40 @@ def make(jobs=16, timeout=1500):
             rc, out = sh("coq_makefile -f _CoqProject -o Makefile", cwd=COQ, timeout=120)
             if rc != 0:
                 return False, out, ["_CoqProject"], terr
-        rc, out = sh(f"timeout {timeout} make -k -j{jobs} 2>&1 | tail -n 200", cwd=COQ, timeout=timeout + 30)
+        rc, out = sh(f"timeout {timeout} make -k -j{jobs} 2>&1", cwd=COQ, timeout=timeout + 30)
+        out = out[-20000:]
         failed = sorted(set(re.findall(r'File "\./([^"]+)", line \d+, characters [\d-]+:\s*\n(?:.*\n)*?Error', out)))
-        ok = all(os.path.exists(os.path.join(COQ, s[:-2] + ".vo")) and
-                 os.path.getmtime(os.path.join(COQ, s[:-2] + ".vo")) >= os.path.getmtime(os.path.join(COQ, s))
-                 for s in srcs)
+        ok = rc == 0
         if not ok:
-            for s in srcs:
-                vo = os.path.join(COQ, s[:-2] + ".vo")
-                if not os.path.exists(vo) or os.path.getmtime(vo) < os.path.getmtime(os.path.join(COQ, s)):
-                    if s not in failed:
-                        failed.append(s)
+            # everything that (transitively) could not be rebuilt: .vo missing or older than any changed source
+            newest_ok = {}
+            for s_ in srcs:
+                vo = os.path.join(COQ, s_[:-2] + ".vo")
+                if not os.path.exists(vo) or os.path.getmtime(vo) < os.path.getmtime(os.path.join(COQ, s_)):
+                    if s_ not in failed:
+                        failed.append(s_)
+            # make -k leaves stale .vo files of dependants in place: remove them so that they are never trusted
+            rc2, dep = sh("cat .Makefile.d 2>/dev/null", cwd=COQ)
+            changed = True
+            bad = set(failed)
+            deps = {}
+            for line in dep.split("\n"):
+                if ":" in line:
+                    tg, ds = line.split(":", 1)
+                    for t_ in tg.split():
+                        if t_.endswith(".vo"):
+                            deps.setdefault(t_[:-3] + ".v", set()).update(d_[:-3] + ".v" for d_ in ds.split() if d_.endswith(".vo"))
+            while changed:
+                changed = False
+                for t_, ds in deps.items():
+                    if t_ not in bad and ds & bad:
+                        bad.add(t_)
+                        changed = True
+            for t_ in bad:
+                vo = os.path.join(COQ, t_[:-2] + ".vo")
+                if os.path.exists(vo):
+                    os.unlink(vo)
+            failed = sorted(bad)
         return ok, out, failed, terr
 
 
